@@ -196,6 +196,10 @@ C14_Try(n, seq, E, failAt, res) ==
   ELSE res = "ok" /\ IsTopo(n, seq, E)
 
 ---------------------------------------------------------------------------
+(* two walks over different graph values in progress at once: each is complete and in order on its own *)
+C14_Nested(n, seq, E, res) == res = "ok" /\ IsTopo(n, seq, E)
+
+---------------------------------------------------------------------------
 (* C16  the builder rejects exactly the cycle-closing edges                 *)
 C16_Result(res, expected) == res = expected
 C16_Edges(built, ue) ==
@@ -207,8 +211,13 @@ C17_Mirror(giNodes, wantNodes, giEdges, built) == giNodes = wantNodes /\ giEdges
 C17_RoundTrip(ok, equal, equalRev, rtNodes, rtEdges, giNodes, giEdges) ==
   ok /\ equal /\ equalRev /\ rtNodes = giNodes /\ rtEdges = giEdges
 
+(* the round trip does not depend on the caller's node-info type or on the serialiser *)
+C17_RoundTripAny(ok, equal) == ok /\ equal
+
 ---------------------------------------------------------------------------
-(* C18  polynomial work: rank calculation pops                              *)
+(* C18  polynomial work: rank calculation pops; and "builds promptly": a graph of a few hundred functions, on    *)
+(* which the code as given needs milliseconds, is built within the harness' generous wall-clock bound           *)
 C18_PopBound(n, pops) == pops <= n * n + n
+C18_Prompt(finished) == finished
 
 =============================================================================
